@@ -519,7 +519,7 @@ func (c *vendOpts) Line() string {
 	var sb strings.Builder
 	sb.WriteString("vend.opts")
 	for _, o := range c.Opts {
-		sb.WriteString(" " + o.K + ":" + encList(o.Names))
+		sb.WriteString(" " + o.K + ":" + encNames(o.Names))
 	}
 	return sb.String()
 }
@@ -566,7 +566,7 @@ func (c *vendOpts) RunCode() string {
 		for _, s := range m.ListConsumables() {
 			cons = append(cons, s.Name)
 		}
-		return "inv=" + encList(inv) + " cons=" + encList(cons)
+		return "inv=" + encNames(inv) + " cons=" + encNames(cons)
 	})
 }
 func (c *vendOpts) Check(m *lib.Monitor, code string) {
@@ -578,7 +578,7 @@ func (c *vendOpts) Check(m *lib.Monitor, code string) {
 			cons = append(cons, o.Names...)
 		}
 	}
-	want := "inv=" + encList(sortedUnique(inv)) + " cons=" + encList(sortedUnique(cons))
+	want := "inv=" + encNames(sortedUnique(inv)) + " cons=" + encNames(sortedUnique(cons))
 	if code == "panic" {
 		m.Violate("C20/vending/NewModel/options/panic", "NewModel with WithInitialStock/WithInitialConsumable (distinct names) panicked: "+lastPanic, c, want, code)
 		return
@@ -588,7 +588,7 @@ func (c *vendOpts) Check(m *lib.Monitor, code string) {
 	}
 }
 
-var vendUnits = []int32{0, 1, 2, 3, 4, 5, 6}
+var vendUnits = []int32{-1, 0, 1, 2, 3, 4, 5, 6, 7} // the 7 Consumable_Unit values plus the two nearest undefined numbers
 
 func randAmount(rng *rand.Rand) float32 {
 	switch rng.Intn(4) {
@@ -624,7 +624,7 @@ func init() {
 	decoders["vending/opts"] = decoder[vendOpts]()
 	builders = append(builders, func(f lib.Flags, res *lib.Result, rng *rand.Rand) []*section {
 		conv := &section{name: "vending/convert",
-			tie:     res.Tie("vending.unitpb.Convert unit table", "K2", "exhaustive over every ordered pair of the 7 Consumable_Unit values x the values {0, 1, 2.5, 1000, 1/3 (as float64), 1e-3, 123456.789}; the model answers with the exact rational, the code with a float64: equal when within 1e-9 relative; non-trivial = from != to; distinct by request line"),
+			tie:     res.Tie("vending.unitpb.Convert unit table", "K2", "exhaustive over every ordered pair of the 7 Consumable_Unit values and the undefined neighbours -1 and 7 x the values {0, 1, 2.5, 1000, 1/3 (as float64), 1e-3, 123456.789}; the model answers with the exact rational, the code with a float64: equal when within 1e-9 relative; non-trivial = from != to; distinct by request line"),
 			mon:     res.Monitor("vending.Convert vs physical facts", "error iff categories differ or a unit is not convertible; value within 1e-9 of exact math/big conversion using independently written factors; round trip within 1e-6"),
 			compare: numericEqual(1e-9)}
 		conv.tie.Exhaustive = true
@@ -636,7 +636,7 @@ func init() {
 			}
 		}
 		seq := &section{name: "vending/seq",
-			tie:     res.Tie("vending.Dispense sequences", "K1", "random: 1..3 stock records with any subset of used/remaining present (each 70%), units mostly volume (70%) else any of the 7, then 1..6 Dispense ops (consumable known 85%, unknown 10%, empty 5%); the model replays the sequence over exact rationals from the same float32 inputs, answers equal when every amount is within 1e-5 x the largest magnitude in the answer (float32 rounding is relative to the operands); non-trivial = some op hits a stock with a quantity present; distinct by request line"),
+			tie:     res.Tie("vending.Dispense sequences", "K1", "random: 1..3 stock records with any subset of used/remaining present (each 70%), units mostly volume (70%) else any of the 9 unit numbers, then 1..6 Dispense ops (consumable known 77%, unknown 10%, empty 5%, near-miss variant of a known name 8%); the model replays the sequence over exact rationals from the same float32 inputs, answers equal when every amount is within 1e-5 x the largest magnitude in the answer (float32 rounding is relative to the operands); non-trivial = some op hits a stock with a quantity present; distinct by request line"),
 			mon:     res.Monitor("vending.Dispense vs math/big spec", "per step from the code's own previous state: used' = used + conv q, remaining' = max 0 (remaining - conv q), own units kept, absent stays absent, other stocks unchanged, conversion error reported and stock unchanged, no panic"),
 			compare: numericEqualScaled(1e-5)}
 		names := []string{"water", "milk", "beans"}
@@ -656,6 +656,8 @@ func init() {
 					name = "nope"
 				case r < 15:
 					name = ""
+				case r < 23:
+					name = nearMiss(rng, name)
 				}
 				ops = append(ops, vendOp{Consumable: name, Q: qty{Unit: likelyUnit(rng), Amount: randAmount(rng)}})
 			}
